@@ -390,12 +390,14 @@ class DeserializationMethodVisitor(
         def factory(constraints: Optional[Constraints], _) -> DeserializationMethod:
             from apischema import settings
 
-            value_map = dict(zip(literal_values(values), values))
+            keys = literal_values(values)
+            # keyed by class too: 1, 1.0 and True are equal and have the same hash
+            value_map = {(key.__class__, key): value for key, value in zip(keys, values)}
             return LiteralMethod(
                 value_map,
-                preformat_error(settings.errors.one_of, list(value_map)),
+                preformat_error(settings.errors.one_of, [key for _, key in value_map]),
                 self.coercer,
-                tuple(set(map(type, value_map))),
+                tuple(dict.fromkeys(cls for cls, _ in value_map)),
             )
 
         return self._factory(factory)
